@@ -607,8 +607,13 @@ class Association(threading.Thread):
             while not self._is_paused:
                 time.sleep(0.0001)
 
-            LOGGER.info("Releasing Association")
-            self.acse.negotiate_release()
+            # The association may have ended while we were waiting for the
+            #   reactor (released or aborted by the peer, the reactor or
+            #   another thread), in which case there's nothing to release
+            if self.is_established:
+                LOGGER.info("Releasing Association")
+                self.acse.negotiate_release()
+
             # Restart reactor
             self._reactor_checkpoint.set()
 
